@@ -9,6 +9,7 @@ import (
 	"io"
 	"net/http"
 	"strings"
+	"time"
 
 	"github.com/go-jose/go-jose/v3"
 	"go.opentelemetry.io/otel/trace"
@@ -302,6 +303,13 @@ func (f *Fosite) authorizeRequestFromPAR(ctx context.Context, r *http.Request, r
 	var err error
 	if parRequest, err = storage.GetPARSession(ctx, requestURI); err != nil {
 		return false, errorsx.WithStack(ErrInvalidRequestURI.WithHint("Invalid PAR session").WithWrap(err).WithDebug(err.Error()))
+	}
+
+	// the pushed request is short-lived: its expiry was recorded in the session when it was pushed
+	if session := parRequest.GetSession(); session != nil {
+		if exp := session.GetExpiresAt(PushedAuthorizeRequestContext); !exp.IsZero() && exp.Before(time.Now().UTC()) {
+			return false, errorsx.WithStack(ErrInvalidRequestURI.WithHint("The 'request_uri' has expired."))
+		}
 	}
 
 	// hydrate the request object
